@@ -94,11 +94,14 @@ def histCompute (s : DsmState) (d : String × Array Rat) (sfA pdfA : Array Rat) 
 /-- one step of the cache state machine (`Flodym/History.lean`) instantiated for the driver;
 which caches `set_prms` discards comes from the regenerated constants -/
 def histStep (s : DsmState) (h : Hist.HState Nat (Array Rat) (String × Array Rat) String)
-    (op : Hist.HOp Nat (String × Array Rat)) : Hist.HState Nat (Array Rat) (String × Array Rat) String :=
-  Hist.step
-    (fun k => ((s.psets.find? (·.1 == k)).map (·.2)).getD #[])
+    (op : Hist.HOp Nat (String × Array Rat)) :
+    Hist.HState Nat (Array Rat) (String × Array Rat) String × Bool :=
+  Hist.stepE
+    -- a parameter set declared unusable (`psetbad k`) has no table: building it raises
+    (fun k => (s.psets.find? (·.1 == k)).map (·.2))
     (fun sfA => (table3 s.n s.m (pdfTable (arr3 s.n s.m sfA))).toArray)
-    (histCompute s) Gen.setPrmsResetsSf Gen.setPrmsResetsPdf h op
+    (histCompute s) Gen.setPrmsResetsSf Gen.setPrmsResetsPdf Gen.failedBuildDiscarded
+    (Array.replicate (s.n * s.n * s.m) 0) h op
 
 /-- `InflowDrivenDSM(...).compute()`; the driver itself is shown again at the end (it must be what was given) -/
 def runIdsm (s : DsmState) (vals : List String) (k : Nat) : String :=
@@ -193,32 +196,36 @@ def dsmStep (s : DsmState) (toks : List String) : Option (DsmState × String) :=
     some (match kt.toNat?, vals.mapM parseRat? with
       | some k, some vs => ({ s with hist := some { prm := k, driver := (kind, vs.toArray) } }, "ok")
       | _, _ => (s, "err"))
+  | ["psetbad", kt] =>
+    some (match kt.toNat? with
+      | some k => ({ s with psets := s.psets.filter (·.1 != k), sv := [] }, "ok")
+      | none => (s, "err"))
   | "h_setprms" :: [kt] =>
     some (match kt.toNat?, s.hist with
       | some k, some h =>
-        ({ s with hist := some (histStep s h (.setPrms k)) }, "ok")
+        ({ s with hist := some (histStep s h (.setPrms k)).1 }, "ok")
       | _, _ => (s, "err"))
   | "h_setdriver" :: vals =>
     some (match vals.mapM parseRat?, s.hist with
-      | some vs, some h => ({ s with hist := some (histStep s h (.setDriver (h.driver.1, vs.toArray))) }, "ok")
+      | some vs, some h => ({ s with hist := some (histStep s h (.setDriver (h.driver.1, vs.toArray))).1 }, "ok")
       | _, _ => (s, "err"))
   | ["h_readsf"] =>
     some (match s.hist with
       | some h =>
-        let h' := histStep s h .readSf
-        ({ s with hist := some h' }, "ok " ++ showRats ((h'.sf.getD #[]).toList))
+        let (h', ok) := histStep s h .readSf
+        ({ s with hist := some h' }, if ok then "ok " ++ showRats ((h'.sf.getD #[]).toList) else "err")
       | none => (s, "err"))
   | ["h_readpdf"] =>
     some (match s.hist with
       | some h =>
-        let h' := histStep s h .readPdf
-        ({ s with hist := some h' }, "ok " ++ showRats ((h'.pdf.getD #[]).toList))
+        let (h', ok) := histStep s h .readPdf
+        ({ s with hist := some h' }, if ok then "ok " ++ showRats ((h'.pdf.getD #[]).toList) else "err")
       | none => (s, "err"))
   | ["h_compute"] =>
     some (match s.hist with
       | some h =>
-        let h' := histStep s h .compute
-        ({ s with hist := some h' }, h'.res.getD "err")
+        let (h', ok) := histStep s h .compute
+        ({ s with hist := some h' }, if ok then h'.res.getD "err" else "err")
       | none => (s, "err"))
   | _ => none
 
